@@ -45,7 +45,7 @@ for d in sorted(glob.glob(VERIF + "/seeded/C*-*")):
         res[name] = {"applied": True, "rc": "timeout"}
     finally:
         subprocess.run(f"cd {REPO} && git checkout -q -- . && git clean -fdq openapi_python_client", shell=True)
-    print(name, json.dumps(res[name])[:300], flush=True)
+    print(name, json.dumps(dict(res[name], first_keys=[k[:90] for k in res[name].get("first_keys", [])])), flush=True)
     mp = d + "/meta.json"
     m = json.load(open(mp))
     if res[name].get("rc") == 1:
